@@ -23,7 +23,7 @@ type child struct {
 	dead   bool
 }
 
-var childSeq int64
+var childSeq, crashLogs int64
 
 func scratchBase() string {
 	if d := os.Getenv("HXC13_SCRATCH"); d != "" {
@@ -91,6 +91,9 @@ var anyFrame = regexp.MustCompile(`github\.com/safing/portbase/([\w/]+)\.([\w\(\
 // crashSite extracts "<panic message> @ <first portbase frame>" from the child's stderr.
 func (c *child) crashSite() (site, msg string) {
 	b, _ := os.ReadFile(c.errLog)
+	if n := atomic.AddInt64(&crashLogs, 1); n <= 5 {
+		_ = os.WriteFile(fmt.Sprintf("worker-failure-%d.log", n), b, 0o644) // cwd = the run's scratch directory
+	}
 	s := string(b)
 	if len(s) > 1<<20 {
 		s = s[len(s)-(1<<20):]
